@@ -121,12 +121,15 @@ def _verifiers(chk, ctx) -> None:
         for pi in (('name', 'player_index'), ('self', 'hole_dealee_index')):
             if last == T.mk_not(T.truthy(pend(pi))):
                 ok_player = True
-            if last == T.spec('len(C) not in range(1, len(Q) + 1)', {'C': cards, 'Q': pend(pi)}, boolean=True):
-                ok_count = True
+            want_count = T.spec('len(C) not in range(1, len(Q) + 1)', {'C': cards, 'Q': pend(pi)}, boolean=True)
+            if last == want_count or T.under(last, cs[:-1]) == T.under(want_count, cs[:-1]):
+                ok_count = True         # (compared as they read under the assumptions of the path: a default may be filled in by a statement)
     for p in ctx.paths(fi):
-        if p.returned and T.cmp('Is', ('name', 'player_index'), ('const', None)) in [unversion(c) for c in p.conds()]:
+        pcs = [unversion(c) for c in p.conds()]
+        if p.returned and T.cmp('Is', ('name', 'player_index'), ('const', None)) in pcs:
             r = unversion(p.outcome[1])
-            ok_default.see(r == ('tuple', (cards, ('self', 'hole_dealee_index'))))
+            want_r = ('tuple', (cards, ('self', 'hole_dealee_index')))
+            ok_default.see(r == want_r or T.under(r, pcs) == T.under(want_r, pcs))
     chk.ob('C10.verifiers', 'State.verify_hole_dealing', ok_player and ok_count and ok_default, fi.loc,
            'hole cards go to a player who is still owed cards, between 1 and as many as he is owed; by default one card to the next dealee',
            got=f'owed-player check: {ok_player}; 1..owed count check: {ok_count}; default (1 card, next dealee): {ok_default}')
